@@ -18,9 +18,9 @@ type Job struct {
 	Lit      *ast.FuncLit
 	JobLit   *ast.CompositeLit
 	Deps     ast.Expr
-	ResLoc   string     // where the *ScheduledJob returned by Enqueue is stored ("" if dropped)
-	Loop     ast.Stmt   // enclosing for/range inside the wrapper, if any
-	Holder   types.Object // the task struct variable (task0, pred1, sliceTask0...) if Run is <holder>.<field>
+	ResLoc   string          // where the *ScheduledJob returned by Enqueue is stored ("" if dropped)
+	Loop     ast.Stmt        // enclosing for/range inside the wrapper, if any
+	Holder   types.Object    // the task struct variable (task0, pred1, sliceTask0...) if Run is <holder>.<field>
 	Calls    []*ast.CallExpr // user calls directly in the closure
 	Role     Role
 	RoleName string
